@@ -36,14 +36,11 @@ def path_interval(ctx, rule, body, p):
     return lo, hi
 
 
-def run(ctx):
+def varint_form_tables(ctx, rule="C16-a"):
+    """VarInt::size / VarInt::encode decision lists against the RFC 9000 section 16 table. Used by every property
+    whose output length fields or identifiers are written through them (C13 SETTINGS, C14 frames, C18 datagrams)."""
     prog = ctx.prog
     consts = prog.consts
-    ctx.check(consts.get(V + "::MAX") == MAX, "C16-a", V + "::MAX", "value", "VarInt::MAX = %s, expected 2^62-1"
-              % consts.get(V + "::MAX"), "2^62-1")
-    ctx.check(consts.get(V + "::MAX_SIZE") == 8, "C16-a", V + "::MAX_SIZE", "value", "VarInt::MAX_SIZE = %s, expected 8"
-              % consts.get(V + "::MAX_SIZE"), "8")
-
     # ---------------------------------------------------------- size / encode interval tables
     bounds = []
     lo = 0
@@ -51,20 +48,20 @@ def run(ctx):
         bounds.append((lo, mx, tag, ln))
         lo = mx + 1
     for name in ("size", "encode"):
-        b = ru.need(ctx, "C16-a", "%s::%s" % (V, name))
+        b = ru.need(ctx, rule, "%s::%s" % (V, name))
         if not b:
             continue
-        ps = ru.all_paths(ctx, "C16-a", b)
+        ps = ru.all_paths(ctx, rule, b)
         table = {}
         for p in ps:
-            plo, phi = path_interval(ctx, "C16-a", b, p)
+            plo, phi = path_interval(ctx, rule, b, p)
             if p.end == "diverge":
-                ctx.check(plo > MAX, "C16-a", b.key, "no panic for values below 2^62",
+                ctx.check(plo > MAX, rule, b.key, "no panic for values below 2^62",
                           "a diverging (unreachable!/panic) path is taken for values in [%s, %s]" % (plo, phi),
                           "diverges only for x >= %d" % plo, None, p.describe())
                 continue
             if p.end != "return":
-                ctx.unrecognised("C16-a", b.key, "path end " + str(p.end), "unexpected path end")
+                ctx.unrecognised(rule, b.key, "path end " + str(p.end), "unexpected path end")
                 continue
             if name == "size":
                 out = expr.fold(p.ret, consts)
@@ -73,7 +70,7 @@ def run(ctx):
                 puts = [e for e in p.calls() if e[2].cname in ("put_u8", "put_u16", "put_u32", "put_u64")
                         and "bytes::buf::buf_mut::BufMut" in (e[2].tkey or "")]
                 if len(puts) != 1:
-                    ctx.violation("C16-a", b.key, "one write per path", "path writes %d times" % len(puts), None, p.describe())
+                    ctx.violation(rule, b.key, "one write per path", "path writes %d times" % len(puts), None, p.describe())
                     continue
                 e = puts[0]
                 width = {"put_u8": 1, "put_u16": 2, "put_u32": 4, "put_u64": 8}[e[2].cname]
@@ -103,7 +100,7 @@ def run(ctx):
                         else:
                             okform = False
                 if not (okform and hasx):
-                    ctx.unrecognised("C16-a", b.key, "written value", "value written is %s" % pa.vfmt(val))
+                    ctx.unrecognised(rule, b.key, "written value", "value written is %s" % pa.vfmt(val))
                     continue
                 shift = 8 * width - 2
                 outd = ("tag/len", tagbits >> shift if tagbits % (1 << shift) == 0 else ("bad", tagbits), width)
@@ -114,9 +111,21 @@ def run(ctx):
             want = ("len", ln) if name == "size" else ("tag/len", tag, ln)
             ok = bool(hits) and all(o == want and iv[0] >= lo_ and iv[1] <= hi_ for iv, o in hits) and \
                 min(iv[0] for iv, _ in hits) == lo_ and max(iv[1] for iv, _ in hits) == hi_
-            ctx.check(ok, "C16-a", b.key, "values %d..%d -> %s" % (lo_, hi_, want),
+            ctx.check(ok, rule, b.key, "values %d..%d -> %s" % (lo_, hi_, want),
                       "for values %d..%d RFC 9000 requires %s; the code's decision list gives %s"
                       % (lo_, hi_, want, sorted(table.items(), key=str)), str(hits))
+
+
+
+def run(ctx):
+    prog = ctx.prog
+    consts = prog.consts
+    ctx.check(consts.get(V + "::MAX") == MAX, "C16-a", V + "::MAX", "value", "VarInt::MAX = %s, expected 2^62-1"
+              % consts.get(V + "::MAX"), "2^62-1")
+    ctx.check(consts.get(V + "::MAX_SIZE") == 8, "C16-a", V + "::MAX_SIZE", "value", "VarInt::MAX_SIZE = %s, expected 8"
+              % consts.get(V + "::MAX_SIZE"), "8")
+
+    varint_form_tables(ctx, "C16-a")
 
     # ---------------------------------------------------------- from_u64 and TryFrom bounds
     for key, okshape in ((V + "::from_u64", "Ok(VarInt::VarInt)"),
